@@ -1048,7 +1048,7 @@ int EGLPNUM_TYPENAME_ILLlib_addrows (
 			ILL_CLEANUP;
 		}
 		rval = check_new_line (&lp->O->rowtab, names ? names[i] : 0, rmatcnt[i],
-													 rmatind + rmatbeg[i], lp->O->nstruct);
+													 (rmatcnt[i] ? rmatind + rmatbeg[i] : 0), lp->O->nstruct);
 		CHECKRVALG (rval, CLEANUP);
 	}
 
@@ -1156,14 +1156,14 @@ int EGLPNUM_TYPENAME_ILLlib_addrows (
 			EGLPNUM_TYPENAME_EGlpNumZero (rng);
 		if (names)
 		{
-			rval = EGLPNUM_TYPENAME_ILLlib_addrow (lp, B, rmatcnt[i], rmatind + rmatbeg[i],
-														rmatval + rmatbeg[i], rhs[i], sense[i], rng,
+			rval = EGLPNUM_TYPENAME_ILLlib_addrow (lp, B, rmatcnt[i], (rmatcnt[i] ? rmatind + rmatbeg[i] : 0),
+														(rmatcnt[i] ? rmatval + rmatbeg[i] : 0), rhs[i], sense[i], rng,
 														names[i]);
 		}
 		else
 		{
-			rval = EGLPNUM_TYPENAME_ILLlib_addrow (lp, B, rmatcnt[i], rmatind + rmatbeg[i],
-														rmatval + rmatbeg[i], rhs[i], sense[i], rng, 0);
+			rval = EGLPNUM_TYPENAME_ILLlib_addrow (lp, B, rmatcnt[i], (rmatcnt[i] ? rmatind + rmatbeg[i] : 0),
+														(rmatcnt[i] ? rmatval + rmatbeg[i] : 0), rhs[i], sense[i], rng, 0);
 		}
 		CHECKRVALG (rval, CLEANUP);
 	}
@@ -2211,7 +2211,7 @@ int EGLPNUM_TYPENAME_ILLlib_addcols (
 	for (i = 0; i < num; i++)
 	{
 		rval = check_new_line (&lp->O->coltab, names ? names[i] : 0, cmatcnt[i],
-													 cmatind + cmatbeg[i], lp->O->nrows);
+													 (cmatcnt[i] ? cmatind + cmatbeg[i] : 0), lp->O->nrows);
 		CHECKRVALG (rval, CLEANUP);
 	}
 
@@ -2219,14 +2219,14 @@ int EGLPNUM_TYPENAME_ILLlib_addcols (
 	{
 		if (names)
 		{
-			rval = EGLPNUM_TYPENAME_ILLlib_addcol (lp, B, cmatcnt[i], cmatind + cmatbeg[i],
-														cmatval + cmatbeg[i], obj[i], lower[i],
+			rval = EGLPNUM_TYPENAME_ILLlib_addcol (lp, B, cmatcnt[i], (cmatcnt[i] ? cmatind + cmatbeg[i] : 0),
+														(cmatcnt[i] ? cmatval + cmatbeg[i] : 0), obj[i], lower[i],
 														upper[i], names[i], factorok);
 		}
 		else
 		{
-			rval = EGLPNUM_TYPENAME_ILLlib_addcol (lp, B, cmatcnt[i], cmatind + cmatbeg[i],
-														cmatval + cmatbeg[i], obj[i], lower[i],
+			rval = EGLPNUM_TYPENAME_ILLlib_addcol (lp, B, cmatcnt[i], (cmatcnt[i] ? cmatind + cmatbeg[i] : 0),
+														(cmatcnt[i] ? cmatval + cmatbeg[i] : 0), obj[i], lower[i],
 														upper[i], 0, factorok);
 		}
 		CHECKRVALG (rval, CLEANUP);
